@@ -33,9 +33,9 @@ func newDiffState(oldMast *Mast, newMast *Mast) *diffState {
 	dc.alreadyNotifiedNewLink = map[uint8]interface{}{}
 	if oldMast != nil {
 		dc.oldMast = oldMast
-		dc.oldStack.pushLink(oldMast.root)
+		dc.oldStack.pushRoot(oldMast.root)
 	}
-	dc.newStack.pushLink(newMast.root)
+	dc.newStack.pushRoot(newMast.root)
 	return &dc
 }
 
@@ -318,6 +318,16 @@ func (stack *iterItemStack) pushNode(node *mastNode) {
 		stack.pushYield(node, i-1)
 	}
 	stack.pushLink(node.Link[0])
+}
+
+// pushRoot pushes the root link of a tree, unless the tree is empty: the
+// entry-less node that stands in for the root of a tree loaded from an empty
+// Root is not part of any version.
+func (stack *iterItemStack) pushRoot(link interface{}) {
+	if node, ok := link.(*mastNode); ok && node.isEmpty() {
+		return
+	}
+	stack.pushLink(link)
 }
 
 func (stack *iterItemStack) pushLink(link interface{}) {
